@@ -150,6 +150,7 @@ let run_mem (infile : string) (outfile : string) =
              (* a step during which other connections act (harness directive BG) and/or which blocks *)
              let bgs = List.rev !pending_bg in
              pending_bg := [];
+             let srv0 = ref !srv in
              let evs = List.map (fun (c, ms, a, o) ->
                  { bg_conn = z_of_string c; bg_ms = z_of_string ms; bg_args = a; bg_hint = parse_reply o }) bgs in
              let (((r, outs), s'), tend) =
@@ -159,6 +160,15 @@ let run_mem (infile : string) (outfile : string) =
              expected_end := Some (string_of_z tend);
              let exp = canon_for_cmd name (print_reply r) in
              if exp <> obs then fail "reply" exp obs;
+             (* a blocking pop with nobody else acting: the dispatcher's own executor (exec_bpop
+                through srv_exec, the subject of the C09 theorems) must give the same reply and
+                keyspace; skipped when the watchdog cut the wait (it would iterate to the timeout) *)
+             if bgs = [] && exp <> "!BLOCKED" then begin
+               let (r2, s2) = srv_exec !srv0 (z_of_string conn) (z_of_string now) (z_of_string nowms) args hint in
+               let exp2 = canon_for_cmd name (print_reply r2) in
+               if exp2 <> exp then fail "exec-vs-bg" exp2 exp;
+               srv := s2
+             end;
              List.iter2 (fun (_, _, a, o) r ->
                  let n = (match a with x :: _ -> String.lowercase_ascii (string_of_bytes x) | [] -> "") in
                  let e = canon_for_cmd n (print_reply r) in
